@@ -34,6 +34,9 @@ EXPLANATION += (
 EXPLANATION += (
     ' C13.10 - attributes(field) must return an object that indexes like segyio\'s (an int selects a length-1 array): decided from what the callable bound to `attributes` returns (bare array expression vs. package class with __getitem__). On the current tree this is the known finding D49.'
 )
+EXPLANATION += (
+    ' C13.11 - samples handed out by the accessors are the decoded volume: the reader entries the accessors, the emulator and tools reach (read_inline / read_crossline / read_zslice / get_trace / read_subvolume / read_volume ...) satisfy the addressing, decode and crop rules of C02 in every layout mode.'
+)
 ASSUMPTIONS = ['segyio yields all lines for f.iline[:] whatever the sign of the line increment', 'names denote what they say']
 NOT_DECIDED = ('Kind/shape/key equality with segyio, which line numbers a stepped slice selects, the values of '
                'attributes(field)[...] and the characters of text[0] (segyio uses its own EBCDIC table), bin, tools.dt values, '
@@ -65,6 +68,31 @@ def run(ctx):
     FR.constant_fields(ctx, 'C13.8')
     FR.text_codec(ctx, 'C13.9')
     FR.attributes_kind(ctx, 'C13.10')
+    # "samples equal to the SGZ's decoded volume": every reader entry the accessors, the emulator and tools hand out
+    # addresses, decodes and crops canonically in every layout mode (the records of C02, restricted to those entries)
+    ctx.rule('C13.11', 'reader entries behind iline / xline / depth_slice / trace / subvolume / tools.cube address, decode and crop canonically (rules of C02)')
+    from .. import layoutrules as LR
+    named = set()
+    for mn in ('accessors', 'segyio_emulator', 'tools'):
+        if mn in P.modules:
+            for x in ast.walk(P.modules[mn].tree):
+                if isinstance(x, ast.Attribute):
+                    named.add(x.attr)
+    allrecs = LR.collect(ctx.shared)
+    entries = {r.entry.name for r in allrecs}
+    # a *_number / *_coord entry reaches its ordinal sibling: follow one delegation step inside the reader
+    chosen = set(entries & named)
+    for f_ in RF.reader_classes(P)[0].methods.values():
+        if f_.name in named:
+            for e_ in G.callees(f_):
+                if e_.target is not None and e_.target.name in entries:
+                    chosen.add(e_.target.name)
+    if len(chosen) < 4:
+        raise AnalysisError('only %d reader entries are reachable from the accessors / emulator / tools: %s' % (len(chosen), sorted(chosen)))
+    recs = [r for r in allrecs if r.entry.name in chosen]
+    LR.report(ctx, recs, {'L1': 'C13.11', 'DEC': 'C13.11', 'L3': 'C13.11', 'L4': 'C13.11'})
+    ctx.floor('C13.11', 20, 'reads / decodes / crops behind the accessors')
+    ctx.notes.append('C13.11 entries: %s' % ', '.join(sorted(chosen)))
     ctx.rule('C13.1', 'accessor triples carry one axis; emulator binds accessors to the attribute of that axis')
     ctx.rule('C13.2', 'default stop of an open-ended line slice lies beyond the last key in the direction of step')
     ctx.rule('C13.3', '2D files: iline / xline / depth_slice refuse with the dimensionality error')
